@@ -82,7 +82,7 @@ RefApplicable(e) ==
     /\ InDomain(e.pre)
     /\ (e.action = "RerootAtMidpoint" => MidpointOk(e.pre) /\ Exact(e.pre) /\ MidpointExact(e.pre))
     /\ (e.action \in {"PruneTaxa", "RetainTaxa"} => HasKept(e.pre, e.pre.seed, CallRemovedTaxa(CallOfEv(e), 1..e.ntaxa)))
-    /\ (e.action = "InsertChild" => e.y # 0 /\ e.i < Len(e.pre.kids[e.y]))
+    /\ (e.action = "InsertChild" => e.y # 0 /\ e.i >= 0)
     /\ (e.action = "InsertNewChild" => e.i <= Len(e.pre.kids[e.x]))
 JudgeDrift(e) ==
     IF ~RefApplicable(e) \/ WFClause(e.post) # "ok" THEN None
@@ -102,12 +102,14 @@ HarnessStop(e) == IF e.stopped /\ e.raised \notin {"Hang", "MemoryError", "Recur
                   THEN V(PROP \o ".HarnessStoppedOnWellFormedState", e.action) ELSE None
 \* totality: node arguments exist in the pre-state and satisfy the documented preconditions the harness promises
 NeedsX == {"ReseedAt", "RerootAtNode", "RerootAtEdge", "ToOutgroupPosition", "CollapseEdge", "CollapseClade", "PruneSubtree",
-           "NewChild", "InsertNewChild", "InsertChild", "RemoveChild", "ReAddChild", "Regraft", "RotateChildren"}
-NeedsNonSeed == {"RerootAtEdge", "ToOutgroupPosition", "CollapseEdge", "InsertChild", "RemoveChild", "ReAddChild", "Regraft"}
+           "NewChild", "InsertNewChild", "InsertChild", "RemoveChild", "ReAddChild", "Regraft", "RotateChildren",
+           "RemoveNonChild", "AddChildSelf", "AddChildParent", "RemoveChildNone", "RemoveChildForeign"}
+NeedsNonSeed == {"RerootAtEdge", "ToOutgroupPosition", "CollapseEdge", "InsertChild", "RemoveChild", "ReAddChild", "Regraft", "AddChildParent"}
 NeedsInternal == {"ReseedAt", "RerootAtNode", "CollapseClade", "NewChild", "InsertNewChild", "RotateChildren"}
 ArgsOk(e) == /\ (e.action \in NeedsX => e.x \in 1..e.pre.n)
              /\ (e.action \in NeedsNonSeed => e.pre.par[e.x] # 0 /\ e.y \in 1..e.pre.n)
              /\ (e.action \in NeedsInternal => ~IsLeaf(e.pre, e.x))
+             /\ (e.action = "RemoveNonChild" => e.y \in 1..e.pre.n /\ e.y # e.x /\ e.pre.par[e.x] # e.y)
 Judge(e) ==
     IF WFClause(e.pre) # "ok" THEN (IF e.step = 1 THEN V(PROP \o ".StartWellFormed", WFClause(e.pre)) ELSE None)
     ELSE IF ~ArgsOk(e) THEN V(PROP \o ".HarnessCallOutsidePrecondition", e.action)
